@@ -180,6 +180,26 @@ fn lookalike(rng: &mut Rng) -> String {
     char::from_u32(cp).unwrap_or('é').to_string()
 }
 
+/// Every non-ASCII scalar whose upper- or lower-case mapping consists of ASCII characters only (for example the
+/// ligature U+FB00 "ff" -> "FF", the Kelvin sign -> "k", long s -> "S"), with the number of characters it expands to.
+/// A parser that normalises case with the Unicode tables instead of the ASCII ones lets these through.
+fn case_lookalikes() -> Vec<(char, usize)> {
+    let mut v = Vec::new();
+    for cp in 0x80u32..=0x10ffff {
+        if let Some(c) = char::from_u32(cp) {
+            let up: String = c.to_uppercase().collect();
+            let lo: String = c.to_lowercase().collect();
+            if up.is_ascii() {
+                v.push((c, up.chars().count()));
+            }
+            if lo.is_ascii() && lo.chars().count() != up.chars().count() || (lo.is_ascii() && !up.is_ascii()) {
+                v.push((c, lo.chars().count()));
+            }
+        }
+    }
+    v
+}
+
 fn replace_char(s: &str, pos: usize, with: &str) -> String {
     let mut out = String::new();
     for (i, c) in s.chars().enumerate() {
@@ -192,7 +212,7 @@ fn replace_char(s: &str, pos: usize, with: &str) -> String {
     out
 }
 
-fn mutations(ctx: &mut Ctx, n: usize, valid: &str, rng: &mut Rng, heavy: bool) {
+fn mutations(ctx: &mut Ctx, n: usize, valid: &str, rng: &mut Rng, heavy: bool, lookalikes: &[(char, usize)]) {
     let w = valid.chars().count();
     let parse = |s: String| move |ty: &str| Ev::new("parse", ty, n).st(&s);
     both(ctx, n, parse(valid.to_string()));
@@ -248,6 +268,27 @@ fn mutations(ctx: &mut Ctx, n: usize, valid: &str, rng: &mut Rng, heavy: bool) {
     both(ctx, n, parse(format!("{} ", valid)));
     both(ctx, n, parse(format!("0x{}", valid)));
     both(ctx, n, parse(format!("{}{}", valid, valid)));
+    // case-mapping look-alikes: the character stands for `e` ASCII characters after case normalisation, so
+    // it is inserted into a valid string shortened by e (character count after expansion = width), and also
+    // substituted one-for-one
+    for (c, e) in lookalikes {
+        if *e >= 1 && w >= *e {
+            let keep: String = valid.chars().take(w - *e).collect();
+            let pos = rng.below(w - *e + 1);
+            let mut s2 = String::new();
+            for (i, ch) in keep.chars().enumerate() {
+                if i == pos {
+                    s2.push(*c);
+                }
+                s2.push(ch);
+            }
+            if pos == w - *e {
+                s2.push(*c);
+            }
+            both(ctx, n, parse(s2));
+        }
+        both(ctx, n, parse(replace_char(valid, rng.below(w), &c.to_string())));
+    }
     // a multi-byte character making the *byte* length equal to the expected width
     if w >= 2 {
         let shorter: String = valid.chars().take(w - 2).collect();
@@ -295,6 +336,8 @@ fn main() {
     for n in 2..=MAX_N + 2 {
         shards.push(("mut", n, 0, 1));
     }
+    let lookalikes = case_lookalikes();
+    ctx.bump("case-mapping-lookalike-characters", lookalikes.len() as u64);
     run_sharded(&mut ctx, cli.threads, shards.len(), |ctx, k| {
         let (kind, n, c, chunks) = shards[k];
         let mut rng = Rng::new(seed ^ ((n as u64) << 16) ^ ((c as u64) << 8) ^ kind.len() as u64);
@@ -338,12 +381,12 @@ fn main() {
                     let fam = Fam::ALL[r % Fam::ALL.len()];
                     let f = Model::from_blocks(n, &gen::gen(if r == 0 { Fam::Random } else { fam }, n, &mut rng));
                     let valid = f.to_hex();
-                    mutations(ctx, n, &valid, &mut rng, thorough || n <= 8);
+                    mutations(ctx, n, &valid, &mut rng, thorough || n <= 8, if r == 0 { &lookalikes } else { &[] });
                 }
                 // digits only / letters only / all f / all 0
                 let w = Model::hex_width(n);
                 for ch in ["f", "0", "9", "a"] {
-                    mutations(ctx, n, &ch.repeat(w), &mut rng, false);
+                    mutations(ctx, n, &ch.repeat(w), &mut rng, false, &[]);
                 }
             }
         }
